@@ -466,7 +466,144 @@ def build_extra():
     C.assume("the batch light system is checked for batches of 1-2 lights with one fade chunk each; the scheduler and "
              "sender tasks (_schedule_updates, _send_updates) are not under contract")
     C.only_verify = ["PlatformBatchLightSystem._send_update_batch"]
-    return [C, schedule_update_set(), stack_target_set()]
+    # a light on a coil (software-faded platform): every brightness step is passed on to the driver (C08's contract on
+    # DriverLight.set_brightness, restricted) - also the last, small steps of a slow fade
+    from . import C08
+    c08 = C08.build()
+    c08.pid = "C09d"
+    c08.replay_pid = "C08"
+    c08.only_verify = ["DriverLight.set_brightness"]
+    return [C, schedule_update_set(), stack_target_set(), c08, fast_led_set(), brightness_setting_set()]
+
+
+FLED = "mpf/platforms/fast/fast_led.py"
+
+
+def fast_led_set():
+    """FAST's own batched LEDs: a channel ends on its target brightness once the fade is over, and the LED it belongs
+    to stays `dirty` (is sent again) while ANY of its channels - possibly owned by different lights - is still fading"""
+    C = ContractSet("C09f", "FAST LED channels reach their target; the LED stays dirty while one channel fades")
+    C.strings = True
+    C.cls("LightPlatformInterface", fields={})
+    C.cls("Logger", fields={})
+    common.declare_noop(C, "Logger", "warning", "debug", reason="logging")
+    C.cls("ClockI", fields=dict(now=Real))
+    C.ext("ClockI.get_time", model=lambda I, env, a, k: I.read_field(env["self"].ref, "now"), trusted_reason="loop clock")
+    C.cls("ChannelI", fields={})
+
+    def gfb(I, env, a, k):
+        b = z3.Real(I.fresh_name("ch_brightness"))
+        I.ctx.assume(z3.And(b >= 0, b <= 1))
+        done = VBool(z3.Bool(I.fresh_name("ch_done")))
+        emit(I, "channel_state", channel=env["self"].ref, done=done)
+        return VTuple([VReal(b), VInt(z3.Int(I.fresh_name("ch_fade"))), done])
+    C.ext("ChannelI.get_fade_and_brightness", model=gfb,
+          trusted_reason="FASTLEDChannel.get_fade_and_brightness (verified below): brightness in 0..1, done flag")
+
+    def channels(I, name):
+        out = []
+        for i in range(3):
+            out.append(I.fresh(ObjS("ChannelI"), "%s[%d]" % (name, i)) if I.ctx.fork(2) else NONE)
+        return I.new_list(out, name)
+    C.cls("FASTRGBLED", file=FLED, fields=dict(dirty=Bool, channels=Init(channels), hardware_fade_ms=Int,
+                                              machine=ObjS("MachineController", clock=ObjS("ClockI")),
+                                              log=ObjS("Logger"), number=Str))
+
+    def dirty_iff_fading(I):
+        this = I.frames[0].env["self"].ref
+        evs = events_named(I, "channel_state")
+        anyf = z3.Or([z3.Not(I.truth(e.args["done"])) for e in evs] + [z3.BoolVal(False)])
+        return VBool(I.truth(I.read_field(this, "dirty")) == anyf)
+    C.helpers["dirty_iff_a_channel_fades"] = dirty_iff_fading
+    C.trace_helpers = {"dirty_iff_a_channel_fades"}
+    C.fn("FASTRGBLED.current_color", is_property=True, result=Str,
+         loops={0: LoopSpec(invariant=[], unroll=True)},
+         ensures=[("FL1: after the LED's colour has been computed it is marked dirty (will be computed and sent again) "
+                   "exactly when at least one of its channels has not finished its fade - whichever channel that is",
+                   "dirty_iff_a_channel_fades()")],
+         modifies=["self.dirty"], raises={}, no_inv=True)
+    C.cls("LedI", fields=dict(hardware_fade_ms=Int, dirty=Bool, log=ObjS("Logger"), number=Str))
+    C.cls("FASTLEDChannel", file=FLED, bases=["LightPlatformInterface"], fields=dict(
+        led=ObjS("LedI"), channel=Int, _current_fade=TupleS(Real, Real, Real, Real), _last_brightness=Opt(Real)))
+    C.fn("FASTLEDChannel.set_fade",
+         params=dict(start_brightness=Real, start_time=Real, target_brightness=Real, target_time=Real),
+         ensures=[("FL2: a new command is stored, invalidates the cached final brightness and marks the LED dirty",
+                   "self._current_fade == (start_brightness, start_time, target_brightness, target_time) and "
+                   "self._last_brightness is None and self.led.dirty")],
+         modifies=["self._current_fade", "self._last_brightness", "self.led.dirty"], raises={})
+    C.fn("FASTLEDChannel.get_fade_and_brightness", params=dict(current_time=Real),
+         requires=[("brightness values lie in 0..1 and a fade starts before it ends",
+                    "0 <= self._current_fade[0] <= 1 and 0 <= self._current_fade[2] <= 1 and "
+                    "(self._current_fade[3] <= 0 or self._current_fade[1] < self._current_fade[3]) and "
+                    "self.led.hardware_fade_ms >= 0 and current_time >= 0"),
+                   ("a cached final brightness is the target of the current command",
+                    "self._last_brightness is None or self._last_brightness == self._current_fade[2]")],
+         ensures=[("FL3: once the fade is over (or there is none) the channel reports EXACTLY its target brightness and "
+                   "that it is done", "implies(self._current_fade[3] <= current_time, result[0] == "
+                                      "self._current_fade[2] and result[2])"),
+                  ("FL4: the reported brightness is never negative", "result[0] >= 0")],
+         modifies=["self._last_brightness"], raises={})
+    return C
+
+
+LCTRL = "mpf/core/light_controller.py"
+
+
+def brightness_setting_set():
+    """the global brightness setting: every change of machine.brightness reaches the lights - the one-shot subscription
+    is renewed on EVERY notification, also when the value did not change"""
+    C = ContractSet("C09b", "brightness setting stays subscribed")
+    C.strings = False
+    C.cls("MpfController", fields={})
+    C.exc("CancelledError", "BaseException")
+    C.globals["asyncio"] = VFn("module", name="asyncio")
+    C.globals["asyncio.CancelledError"] = VCls("CancelledError")
+    C.cls("FutureI", fields=dict(cancelled_=Bool))
+
+    def fut_result(I, env, a, k):
+        if I.ctx.branch(I.truth(I.read_field(env["self"].ref, "cancelled_"))):
+            I.raise_("CancelledError")
+        return NONE
+    C.ext("FutureI.result", model=fut_result, trusted_reason="asyncio.Future.result (A-ASYNCIO)")
+    C.ext("FutureI.add_done_callback",
+          model=lambda I, env, a, k: (emit(I, "subscribed", fut=env["self"].ref, cb=a[0]), NONE)[1],
+          trusted_reason="asyncio.Future.add_done_callback (A-ASYNCIO): one-shot notification")
+    C.cls("TemplateI", fields={})
+
+    def eval_sub(I, env, a, k):
+        f = I.fresh(ObjS("FutureI"), I.fresh_name("subscription"))
+        v = VReal(z3.Real(I.fresh_name("brightness_now")))
+        emit(I, "evaluated", value=v, fut=f.ref)
+        return VTuple([v, f])
+    C.ext("TemplateI.evaluate_and_subscribe", model=eval_sub,
+          trusted_reason="BaseTemplate.evaluate_and_subscribe (C16): current value + a future completed on the next "
+                         "change of a variable it read")
+    C.cls("LightController", file=LCTRL, bases=["MpfController"], fields=dict(
+        brightness_factor=Real, _brightness_template=ObjS("TemplateI"),
+        machine=ObjS("MachineController", is_shutting_down=Bool)))
+
+    def resubscribed(I):
+        ev = events_named(I, "evaluated")
+        sub = events_named(I, "subscribed")
+        if len(ev) != 1 or len(sub) != 1 or sub[0].args["fut"] is not ev[0].args["fut"]:
+            return VBool(False)
+        this = I.frames[0].env["self"].ref
+        cb = I.force(sub[0].args["cb"])
+        ok = cb.tag == "fn" and cb.kind == "bound" and cb.name == "_update_brightness" and cb.obj is this
+        return VBool(z3.And(z3.BoolVal(bool(ok)), I.eq(I.read_field(this, "brightness_factor"), ev[0].args["value"])))
+    C.helpers["resubscribed_with_current_value"] = resubscribed
+    C.helpers["n_subscribed"] = lambda I: VInt(len(events_named(I, "subscribed")))
+    C.trace_helpers = {"resubscribed_with_current_value", "n_subscribed"}
+    C.fn("LightController._update_brightness", params=dict(future=Opt(ObjS("FutureI"))),
+         ensures=[("LB1: whenever the brightness notification fires (and MPF is not shutting down, the subscription was not "
+                   "cancelled) the factor is re-read and the one-shot subscription is renewed - also when the value is "
+                   "the same as before - so that the NEXT change of the setting still reaches the lights",
+                   "implies(not self.machine.is_shutting_down and (future is None or not future.cancelled_), "
+                   "resubscribed_with_current_value())"),
+                  ("otherwise nothing is subscribed", "implies(self.machine.is_shutting_down or (future is not None and "
+                                                      "future.cancelled_), n_subscribed() == 0)")],
+         modifies=["self.brightness_factor"], raises={})
+    return C
 
 
 def schedule_update_set():
